@@ -308,5 +308,5 @@ TRUSTED_BASE = [
     "Coq 8.16.1 kernel (coqc); vm_compute used to evaluate models/oracles on cases and to close finite facts; native_compute not used",
     "hand-written Gallina model of the code, tied to /repo by the differential correspondence of this run (Python harness, generators, canonicalisers)",
     "CPython semantics of generators, dataclasses.replace, tuple comparison; heapq.merge and sortedcontainers.SortedList are modelled, not verified",
-    "tie C: the Python-subset-to-Gallina translator harness/translate/pysrc.py (fail-closed) for the functions listed under source_translation; its output is proved equal to the model in Proofs/GenEq.v",
+    "tie C: the Python-subset-to-Gallina translator harness/translate/pysrc.py (fail-closed) for the functions listed under source_translation; its output is proved equal to the model in Proofs/GenEq*.v; the TRUSTED readings of each extension are listed at the top of harness/translate/srcspecs_*.py",
 ]
